@@ -91,19 +91,28 @@ def rule_grammar(ctx):
               bad_detail='AuxPoW section consumes %s; the merged-mining spec has one coinbase tx, one parent hash, two merkle branches and one parent header (each unconditional, none in a loop)' % [(s[0], s[2], s[3]) for s in seq])
     mb = prog.one('BlockchainRead::read_merkle_branch')
     ctx.touch(mb)
+    # grammar of a branch: count (CompactSize), count x h32, mask (u32 LE); the hash loop may be a for loop or a
+    # lazily mapped range that is collected (wire.grammar flattens both to the same items)
     items, labels = wire.grammar(mb)
-    seq = sorted((i[1], i[2], tuple(i[4]), tuple(i[5])) for i in wire.shape(items))
-    ctx.check('grammar', 'branch={count,mask-u32le}', seq == sorted([('read_from', None, (), ()), ('read_u32', 'LittleEndian', (), ())]), mb, 'merkle branch outer reads %s' % seq)
-    ret = wire.ret_canon(mb, labels)
+    sh = wire.shape(items)
+    outer = sorted((i[1], i[2], tuple(i[4]), tuple(i[5])) for i in sh if not i[5])
+    ctx.check('grammar', 'branch={count,mask-u32le}', outer == sorted([('read_from', None, (), ()), ('read_u32', 'LittleEndian', (), ())]), mb, 'merkle branch outer reads %s' % outer)
     cnt = [i[0] for i in items if i[1] == 'read_from']
-    okb = bool(cnt) and 'collect(map(Range::Range{start: 0, end: read_from#%s(self)?.value}, closure:{closure#0}))?' % cnt[0] in ret
-    ctx.check('grammar', 'branch-hashes-bound-by-count', okb, mb, 'hashes = (0..count).map(read_256hash)')
-    cl = util.only_closure(prog, mb)
-    ctx.touch(cl)
-    cr = [c for c in cl.calls if wire.is_read(c)]
-    ctx.check('grammar', 'branch-item=h32', len(cr) == 1 and mir.method_name(cr[0].name) == 'read_256hash' and cl.loop_depth(cr[0].bb) == 0, cl, 'each branch item is one 32-byte hash')
-    coll = [c for c in mb.calls if mir.method_name(c.name) == 'collect']
-    ctx.check('grammar', 'all-hashes-read', len(coll) == 1 and util.result_is_consumed(mb, coll[0]) and 'rayon' not in coll[0].name, mb, 'the hash loop is driven to completion (collect + ?)')
+    inner = [i for i in sh if i[5]]
+    dom = 'Range::Range{start: 0, end: read_from#%s(self)?.value}' % (cnt[0] if cnt else '?')
+    ctx.check('grammar', 'branch-hashes-bound-by-count', len(inner) == 1 and list(inner[0][5]) == [dom], mb, 'hashes are read for 0..count: %s' % [i[5] for i in inner])
+    ctx.check('grammar', 'branch-item=h32', len(inner) == 1 and inner[0][1] == 'read_256hash' and not inner[0][4] and not [g for g in inner[0][6] if 'next(' not in g], mb,
+              'each branch item is one 32-byte hash: %s' % [(i[1], i[6]) for i in inner])
+    # every hash read is checked: its error ends the read (the `?` inside the loop, or collect::<Result<..>>()?)
+    hr = [i[7] for i in items if i[1] == 'read_256hash']
+    okall = bool(hr)
+    for c in hr:
+        if c.body is mb:
+            okall = okall and util.result_is_consumed(mb, c)
+        else:
+            coll = [c2 for c2 in mb.calls if mir.method_name(c2.name) == 'collect']
+            okall = okall and len(coll) == 1 and util.result_is_consumed(mb, coll[0]) and 'rayon' not in coll[0].name and 'Result<' in ' '.join(coll[0].gargs)
+    ctx.check('grammar', 'all-hashes-read', okall, mb, 'the hash loop is driven to completion and its errors are propagated')
     h = prog.one('BlockchainRead::read_256hash')
     ctx.touch(h)
     ex = [c for c in h.calls if mir.method_name(c.name) == 'read_exact']
